@@ -18,19 +18,23 @@ import numpy as np
 from harness.common import enc, Z, to_zs, kids, tag, is_err
 
 PROP = 'C02'
-GENERATORS = ['gen_tables']
+GENERATORS = ['gen_tables', 'gen_codecs']
 TRUSTED = [
     'table extractor tools/gen/gen_tables.py (class table, registries regenerated from the package on every run; its ast rules: '
     'instance attributes = self.X assignments in the __init__ methods along the MRO, cls(...) call shape of __setgluestate__)',
     'hand models: name registry (GlueSerializer.id/_disambiguate), saver/loader dispatch over the class table, abstract object-graph codec '
     '(save = name reachable nodes + emit records, load = memoised two-phase reconstruction)',
     'per-class field codecs (__gluestate__/__setgluestate__ bodies, registered savers/loaders) are a hypothesis of graph_roundtrip; '
-    'they are exercised by the session oracle only',
+    'the registered saver / loader functions are additionally covered by the field-level table theorems (codec_*) over '
+    'tools/gen/gen_codecs.py (ast: keys written per saver path, keys tested / read per loader path, constructor arguments fed from the record; '
+    'its rules: every if / loop / try forks a path, a value "depends on a test" when it contains a conditional / boolean / comparison or a local '
+    'bound or mutated under a condition); the table is tied to the live code by the `codecs` stream (keys of every record written by a session)',
     'numpy .npy/base64 codec, JSON, file readers (csv / fits / npy) and matplotlib colormaps are the platform',
 ]
 ASSUMPTIONS = [
     'a failure while saving (any exception out of GlueSerializer.dumps) is allowed by the property; a failure while loading or a silent change is a violation',
-    'observables: labels, component order and kinds, values, attributes reachable through links from every other dataset, subset masks, '
+    'observables: labels, component order and kinds, values, units, for categorical components labels / integer codes / category list in order / jitter method '
+    '(with jitter the codes are read back by rounding: the noise is fresh by design), attributes reachable through links from every other dataset, subset masks, '
     'styles, JSON-serialisable metadata, key joins, subset-group labels and count',
     'classes that cannot be instantiated from the public API with generic arguments are listed in the evidence notes, not exercised',
 ]
@@ -158,6 +162,30 @@ def values_for(kind, seed, shape):
     if kind == 'datetime':
         return (np.datetime64('2020-01-01') + rs.randint(0, 400, shape).astype('timedelta64[D]')).astype('datetime64[ns]')
     raise ValueError(kind)
+
+
+def cat_categories(vals, cats):
+    """explicit `categories=` argument of a CategoricalComponent from the option record of a spec:
+    order: None (the values that occur, sorted = what the default would be) | 'reverse' | 'rotate' | 'swap' (first two exchanged);
+    front / back: categories that do not occur in the data; drop: number of occurring categories left out (their rows get the code NaN);
+    form: 'list' | 'tuple' | 'array' (how the argument is passed)"""
+    present = [str(x) for x in np.unique(np.asarray(vals).ravel())]
+    order = cats.get('order')
+    if order == 'reverse':
+        present = present[::-1]
+    elif order == 'rotate':
+        present = present[1:] + present[:1]
+    elif order == 'swap' and len(present) > 1:
+        present = [present[1], present[0]] + present[2:]
+    if cats.get('drop'):
+        present = present[:max(0, len(present) - cats['drop'])]
+    out = list(cats.get('front') or []) + present + list(cats.get('back') or [])
+    form = cats.get('form', 'list')
+    if form == 'tuple':
+        return tuple(out)
+    if form == 'array':
+        return np.array(out)
+    return out
 
 
 def att(datasets, ref):
@@ -304,6 +332,10 @@ def make_state(datasets, st):
     if c == 'RoiSubsetState3d':
         return S.RoiSubsetState3d(att(datasets, (d, st['x'])), att(datasets, (d, st['y'])), att(datasets, (d, st['z'])),
                                   make_roi(st['roi']), make_pretransform(st.get('pre')))
+    if c == 'CategoricalROISubsetState' and 'from_range' in st:
+        # the public translation of a range over the integer codes into labels, using the component's category order at build time
+        cid = att(datasets, (d, st['att']))
+        return S.CategoricalROISubsetState.from_range(datasets[d].get_component(cid).categories, cid, st['from_range'][0], st['from_range'][1])
     if c == 'CategoricalROISubsetState':
         return S.CategoricalROISubsetState(att=att(datasets, (d, st['att'])), roi=make_roi({'cls': 'CategoricalROI', 'categories': st['categories']}))
     if c == 'CategoricalROISubsetState2D':
@@ -351,7 +383,7 @@ def apply_style(style, spec):
 def write_file(ds, path_base):
     """write the main numeric / categorical components of a dataset spec to a file; returns the path"""
     shape = tuple(ds['shape'])
-    comps = [c for c in ds['comps'] if c['kind'] in ('float', 'int', 'cat', 'floatnan', 'key')]
+    comps = [c for c in ds['comps'] if c['kind'] in ('float', 'int', 'cat', 'floatnan', 'key') and not c.get('mem')]
     if ds['file'] == 'csv':
         path = path_base + '.csv'
         cols = [values_for(c['kind'], c['seed'], shape) for c in comps]
@@ -395,7 +427,10 @@ def realise(spec, scratch):
             from glue.core.data_region import RegionData
             n = shape[0]
             geoms = np.array([Point(float(i), float(i % 3)).buffer(1 + 0.5 * i) for i in range(n)])
-            d = RegionData(label=ds['label'], boundary=geoms, area=shapely.area(geoms))
+            if ds['region'] == 'no-extended':
+                d = RegionData(label=ds['label'])
+            else:
+                d = RegionData(label=ds['label'], boundary=geoms, area=shapely.area(geoms))
         elif ds.get('file'):
             from glue.core.data_factories import load_data
             os.makedirs(sdir, exist_ok=True)
@@ -408,7 +443,7 @@ def realise(spec, scratch):
                     raise NoRecipe('file gave %d datasets' % len(d))
             d.label = ds['label']
             if ds['file'] == 'fits':
-                first = [c for c in ds['comps'] if c['kind'] in ('float', 'int', 'cat', 'floatnan')][0]
+                first = [c for c in ds['comps'] if c['kind'] in ('float', 'int', 'cat', 'floatnan') and not c.get('mem')][0]
                 d.main_components[0].label = first['name']
         else:
             d = Data(label=ds['label'])
@@ -443,17 +478,23 @@ def realise(spec, scratch):
                 if k in ('float', 'int', 'cat'):
                     d.add_component(values_for(k, c['seed'], shape), c['name'])
                 continue
-            if ds.get('file') and k in ('float', 'int', 'cat', 'floatnan', 'key'):
+            if ds.get('file') and k in ('float', 'int', 'cat', 'floatnan', 'key') and not c.get('mem'):
                 if ds['file'] != 'fits' or c['name'] == d.main_components[0].label:
                     continue
             if k in ('float', 'int', 'floatnan', 'key'):
                 comp = Component(values_for(k, c['seed'], shape), units=c.get('units'))
                 d.add_component(comp, c['name'])
             elif k == 'cat':
-                comp = CategoricalComponent(values_for(k, c['seed'], shape), units=c.get('units'))
+                vals = values_for(k, c['seed'], shape)
+                kw = {}
+                if c.get('cats') is not None:
+                    kw['categories'] = cat_categories(vals, c['cats'])
+                if c.get('jitter') is not None:
+                    kw['jitter'] = c['jitter']
+                comp = CategoricalComponent(vals, units=c.get('units'), **kw)
                 d.add_component(comp, c['name'])
             elif k == 'datetime':
-                d.add_component(DateTimeComponent(values_for(k, c['seed'], shape)), c['name'])
+                d.add_component(DateTimeComponent(values_for(k, c['seed'], shape), units=c.get('units')), c['name'])
             elif k == 'dask':
                 import dask.array as da
                 from glue.core.component import DaskComponent
@@ -471,6 +512,9 @@ def realise(spec, scratch):
                 from glue.core.component_id import ComponentID
                 pc = ParsedCommand(c['cmd'], {kk: att(datasets, (idx, v)) for kk, v in c['refs'].items()})
                 d.add_component_link(ParsedComponentLink(ComponentID(c['name'], parent=d), pc))
+        for c in ds['comps']:
+            if c['kind'] in ('arith', 'func', 'parsed') and c.get('units') is not None:
+                d.get_component(att(datasets, (len(datasets) - 1, c['name']))).units = c['units']
         if ds.get('reorder'):
             coord = list(d.coordinate_components)
             rest = [c for c in d.components if not any(c is x for x in coord)]
@@ -656,6 +700,28 @@ def state_rois(st, depth=0):
     return out
 
 
+def cat_obs(comp):
+    """a categorical component as the rest of the package sees it: labels, integer codes (what CategorySubsetState, ranges over a
+    categorical axis and the viewers work on), the category list in its order. With jitter the codes carry fresh random noise in
+    [-0.5, 0.5) by design, so the code is read back by rounding."""
+    o = {}
+    for nm in ('labels', 'codes', 'categories'):
+        try:
+            v = getattr(comp, nm)
+            if nm == 'codes':
+                v = np.asarray(v, dtype=float)
+                if getattr(comp, 'jitter_method', None) is not None:
+                    v = np.floor(v + 0.5)
+            elif nm == 'labels':
+                v = np.asarray(v)
+            else:
+                v = [str(x) for x in v]
+            o[nm] = canon(v)
+        except Exception as e:
+            o[nm] = 'EXC:' + type(e).__name__
+    return o
+
+
 def observe(dc, aspects=None):
     """canonical, JSON-able description of everything the property lists; `aspects` restricts it (C12: what an old format recorded)"""
     A = aspects or {'labels', 'components', 'values', 'linked', 'links', 'masks', 'styles', 'meta', 'joins', 'groups', 'coords', 'uuid', 'sg_count'}
@@ -674,9 +740,11 @@ def observe(dc, aspects=None):
             o['derived'] = [c.label for c in d.derived_components]
             o['kinds'] = [type(d.get_component(c)).__name__ for c in comps]
             o['units'] = [canon(d.get_component(c).units) for c in comps]
+            o['jitter'] = [canon(getattr(d.get_component(c), 'jitter_method', None)) for c in comps]
         if 'values' in A:
             o['values'] = [read(d, c) for c in comps]
             o['categories'] = [canon(d.get_component(c).categories) if hasattr(d.get_component(c), 'categories') else None for c in comps]
+            o['categorical'] = [cat_obs(d.get_component(c)) if getattr(d.get_component(c), 'categorical', False) else None for c in comps]
         if 'coords' in A:
             o['coords'] = type(d.coords).__name__ if d.coords is not None else None
         if 'styles' in A:
@@ -826,6 +894,7 @@ def trip(spec, scratch, via_app=False, serializer_cls=None, aspects=None):
         return {'status': 'load-failed', 'detail': 'saving does not terminate: %s' % e}
     except Exception as e:
         return {'status': 'save-failed', 'detail': '%s: %s' % (type(e).__name__, str(e)[:200])}
+    SEEN_RECORDS.update(records_in(text))
     try:
         with time_limit(30):
             dc2 = load_it(text)
@@ -850,6 +919,29 @@ def trip(spec, scratch, via_app=False, serializer_cls=None, aspects=None):
     if dd:
         return {'status': 'not-idempotent', 'detail': [[p, x, y] for p, x, y in dd]}
     return {'status': 'ok', 'detail': None, 'types': sorted(types_in(text)), 'nontrivial': nontrivial(before)}
+
+
+def records_in(text):
+    """(type, protocol, sorted keys) of every record of a saved session"""
+    acc = set()
+    try:
+        top = json.loads(text)
+    except ValueError:
+        return acc
+    for rec in top.values() if isinstance(top, dict) else []:
+        stack = [rec]
+        while stack:
+            o = stack.pop()
+            if isinstance(o, dict):
+                if isinstance(o.get('_type'), str):
+                    acc.add((o['_type'], o.get('_protocol', 1), tuple(sorted(k for k in o if isinstance(k, str)))))
+                stack.extend(o.values())
+            elif isinstance(o, list):
+                stack.extend(o)
+    return acc
+
+
+SEEN_RECORDS = set()
 
 
 def types_in(text):
@@ -1071,6 +1163,91 @@ def join_cases():
     return out
 
 
+# constructor options of CategoricalComponent: explicit category lists (order, unused entries, missing entries, how they are passed), jitter, units
+CAT_OPTIONS = [
+    ('default', {}),
+    ('sorted-explicit', {'cats': {}}),
+    ('reverse', {'cats': {'order': 'reverse'}}),
+    ('rotate', {'cats': {'order': 'rotate'}}),
+    ('swap-tuple', {'cats': {'order': 'swap', 'form': 'tuple'}}),
+    ('reverse-array', {'cats': {'order': 'reverse', 'form': 'array'}}),
+    ('unused-back', {'cats': {'back': ['zz']}}),
+    ('unused-front', {'cats': {'front': ['A0']}}),
+    ('reverse-unused', {'cats': {'order': 'reverse', 'front': ['zz'], 'back': ['A0', 'q']}}),
+    ('missing', {'cats': {'drop': 1}}),
+    ('rotate-missing', {'cats': {'order': 'rotate', 'drop': 1}}),
+    ('empty', {'cats': {'drop': 9}}),
+    ('jitter', {'jitter': 'uniform'}),
+    ('jitter-reverse', {'jitter': 'uniform', 'cats': {'order': 'reverse'}}),
+    ('units', {'units': 'mag'}),
+    ('units-rotate-jitter', {'units': 'mag', 'jitter': 'uniform', 'cats': {'order': 'rotate', 'back': ['zz']}}),
+]
+
+
+def cat_states(d, name, other, num):
+    """selections over a categorical attribute: on the integer codes, on the labels, and composites of them"""
+    code = lambda codes: {'cls': 'CategorySubsetState', 'd': d, 'att': name, 'codes': codes}
+    return [
+        {'label': 'code0', 'state': code([0])},
+        {'label': 'code12', 'state': code([1, 2])},
+        {'label': 'code3', 'state': code([3])},
+        {'label': 'labels', 'state': {'cls': 'CategoricalROISubsetState', 'd': d, 'att': name, 'categories': ['a', 'dd']}},
+        {'label': 'range', 'state': {'cls': 'CategoricalROISubsetState', 'd': d, 'att': name, 'from_range': [0.5, 2]}},
+        {'label': 'multi', 'state': {'cls': 'CategoricalMultiRangeSubsetState', 'd': d, 'cat': name, 'num': num, 'ranges': {'a': [[0, 3]], 'b': [[2, 4], [6, 8]], 'c': [[0, 8]]}}},
+        {'label': '2d', 'state': {'cls': 'CategoricalROISubsetState2D', 'd': d, 'att1': name, 'att2': other, 'categories': {'a': ['a', 'b'], 'b': ['dd'], 'dd': ['a', 'b', 'c', 'dd']}}},
+        {'label': 'notcode', 'state': {'cls': 'InvertState', 'a': code([1])}},
+        {'label': 'and', 'state': {'cls': 'AndState', 'a': code([0, 1]), 'b': {'cls': 'RangeSubsetState', 'd': d, 'att': num, 'lo': 1, 'hi': 7}}},
+        {'label': 'multior', 'state': {'cls': 'MultiOrState', 'states': [code([2]), {'cls': 'CategoricalROISubsetState', 'd': d, 'att': name, 'categories': ['a']}]}},
+        {'label': 'roi', 'state': {'cls': 'RoiSubsetState', 'd': d, 'x': name, 'y': num, 'roi': {'cls': 'RectangularROI', 'xmin': 0.5, 'xmax': 2.5, 'ymin': 0, 'ymax': 8}}},
+        {'label': 'coderange', 'state': {'cls': 'RangeSubsetState', 'd': d, 'att': name, 'lo': 0.5, 'hi': 1.5}},
+    ]
+
+
+def component_option_cases():
+    """per-component constructor options x include_data on / off (off: the dataset comes from a file and the component under test is
+    added in memory, which is the only way a component without a load log gets into such a session)"""
+    out = []
+    for nm, opt in CAT_OPTIONS:
+        for inc in (True, False):
+            if inc:
+                t = table_ds('t', 8, 11)
+                t['comps'][3] = dict(t['comps'][3], **opt)
+                cname = 'c'
+            else:
+                t = table_ds('t', 8, 11, file='csv', extra=[dict({'name': 'cm', 'kind': 'cat', 'seed': 14, 'mem': True}, **opt)])
+                cname = 'cm'
+            sp = {'include_data': inc, 'datasets': [t, table_ds('t2', 8, 41)], 'links': [{'kind': 'LinkSame', 'a': [0, 'x'], 'b': [1, 'x']}],
+                  'subsets': cat_states(0, cname, 'c2', 'x')}
+            out.append(('cat:%s:%s' % (nm, 'data' if inc else 'ref'), sp))
+    # N-d categorical components
+    for nm, opt in CAT_OPTIONS[:1] + CAT_OPTIONS[2:3] + CAT_OPTIONS[6:7] + CAT_OPTIONS[12:13]:
+        for shape in ((2, 3), (2, 2, 2)):
+            im = image_ds('im', shape, 21, extra=[dict({'name': 'c', 'kind': 'cat', 'seed': 24}, **opt)])
+            sp = {'include_data': True, 'datasets': [im], 'links': [], 'subsets': [
+                {'label': 'code0', 'state': {'cls': 'CategorySubsetState', 'd': 0, 'att': 'c', 'codes': [0]}},
+                {'label': 'labels', 'state': {'cls': 'CategoricalROISubsetState', 'd': 0, 'att': 'c', 'categories': ['a', 'dd']}}]}
+            out.append(('cat-nd:%s:%dd' % (nm, len(shape)), sp))
+    # units on every stored component kind
+    for inc in (True, False):
+        mem = {} if inc else {'mem': True}
+        extra = [dict({'name': 'fu', 'kind': 'float', 'seed': 3, 'units': 'm'}, **mem), dict({'name': 'iu', 'kind': 'int', 'seed': 4, 'units': 'km / s'}, **mem),
+                 dict({'name': 'nu', 'kind': 'floatnan', 'seed': 5, 'units': ''}, **mem), {'name': 'du', 'kind': 'datetime', 'seed': 6, 'units': 'yr'},
+                 dict({'name': 'cu', 'kind': 'cat', 'seed': 7, 'units': 'class'}, **mem)]
+        t = table_ds('t', 6, 11, file=None if inc else 'csv', extra=extra)
+        out.append(('units:%s' % ('data' if inc else 'ref'), {'include_data': inc, 'datasets': [t], 'links': [], 'subsets': [
+            {'label': 's', 'state': {'cls': 'RangeSubsetState', 'd': 0, 'att': 'fu', 'lo': 2, 'hi': 6}}]}))
+    # units set on a derived component (Component.units is a public attribute)
+    for k, dcomp in enumerate([{'name': 'q', 'kind': 'arith', 'expr': ['mul', 'x', 2]}, {'name': 'q', 'kind': 'func', 'from': ['x'], 'fn': 'double'},
+                               {'name': 'q', 'kind': 'parsed', 'cmd': '{a} + 1', 'refs': {'a': 'x'}}]):
+        t = table_ds('t', 6, 11, extra=[dict(dcomp, units='km')])
+        out.append(('units:derived:%s' % dcomp['kind'], {'include_data': True, 'datasets': [t], 'links': [], 'subsets': [
+            {'label': 's', 'state': {'cls': 'InequalitySubsetState', 'd': 0, 'left': 'q', 'right': 5, 'op': 'gt'}}]}))
+    # a RegionData without extended component: the saver must fail loudly (see legit_unwritten_reads in coq/C02/CodecModel.v)
+    out.append(('regiondata:no-extended', {'include_data': True, 'datasets': [{'label': 'reg', 'shape': [4], 'region': 'no-extended', 'comps': [{'name': 'v', 'kind': 'float', 'seed': 3}]}],
+                                           'links': [], 'subsets': []}))
+    return out
+
+
 def base_spec(include_data=True, files=False):
     t = table_ds('t', n=8, seed=11, file='csv' if files else None)
     im = image_ds('im', (3, 4), seed=21, file='fits' if files else None)
@@ -1241,6 +1418,8 @@ def catalogue(tables):
     # key joins over 3 and 4 datasets, cycles included: every order of the collection x every order of making the joins (3 datasets),
     # a sample of them for 4; selections on every dataset, so that datasets with two joins are reached through both
     cases.extend(join_cases())
+    # constructor options of the stored components (explicit category lists, jitter, units, N-d categoricals) with selections over the integer codes
+    cases.extend(component_option_cases())
     # styles: every attribute at its boundary / falsy values, on a dataset and on a subset group at once, with and without data
     for k, (nm, st) in enumerate(style_cases()):
         inc = k % 3 != 0
@@ -1272,6 +1451,26 @@ def catalogue(tables):
     return cases
 
 
+def random_cat_option(rng):
+    opt = {}
+    if rng.random() < 0.75:
+        cats = {}
+        if rng.random() < 0.7:
+            cats['order'] = rng.choice(['reverse', 'rotate', 'swap'])
+        if rng.random() < 0.3:
+            cats[rng.choice(['front', 'back'])] = rng.sample(['zz', 'A0', 'q'], rng.randrange(1, 3))
+        if rng.random() < 0.1:
+            cats['drop'] = 1
+        if rng.random() < 0.3:
+            cats['form'] = rng.choice(['tuple', 'array'])
+        opt['cats'] = cats
+    if rng.random() < 0.2:
+        opt['jitter'] = 'uniform'
+    if rng.random() < 0.2:
+        opt['units'] = 'mag'
+    return opt
+
+
 def random_spec(rng, tables):
     """a larger random session: 1-3 datasets, random component kinds, coordinates, links, joins and 1-4 subset groups (composites to depth 2)"""
     nds = rng.choice([1, 2, 2, 3])
@@ -1286,8 +1485,15 @@ def random_spec(rng, tables):
                 ds['file'] = rng.choice(['csv', 'npy'])
                 if ds['file'] == 'npy':
                     ds['comps'] = [c for c in ds['comps'] if c['kind'] != 'cat']
-            elif rng.random() < 0.3:
-                ds['comps'].append({'name': 'when', 'kind': 'datetime', 'seed': seed + 9})
+                if rng.random() < 0.5:          # a component without a load log next to the ones that come from the file
+                    ds['comps'].append(dict({'name': 'cm', 'kind': 'cat', 'seed': seed + 7, 'mem': True}, **random_cat_option(rng)))
+            else:
+                if rng.random() < 0.3:
+                    ds['comps'].append({'name': 'when', 'kind': 'datetime', 'seed': seed + 9, 'units': rng.choice([None, 'yr'])})
+                if rng.random() < 0.6:
+                    ds['comps'][3] = dict(ds['comps'][3], **random_cat_option(rng))
+                if rng.random() < 0.3:
+                    ds['comps'][0] = dict(ds['comps'][0], units=rng.choice(['m', '', 'km / s']))
         else:
             shape = (rng.choice([2, 3]), rng.choice([3, 4])) if kind == 'image2' else (2, rng.choice([2, 3]), 2)
             ds = image_ds('d%d' % i, shape, seed)
@@ -1338,8 +1544,11 @@ def random_spec(rng, tables):
         is_table = len(ds['shape']) == 1
         names = [c['name'] for c in ds['comps']]
         opts = ['RangeSubsetState', 'InequalitySubsetState', 'RoiSubsetState', 'MultiRangeSubsetState', 'RoiSubsetStateNd', 'ParsedSubsetState', 'ElementSubsetState']
-        if 'c' in names:
-            opts += ['CategoricalROISubsetState', 'CategorySubsetState', 'CategoricalMultiRangeSubsetState']
+        catname = 'cm' if 'cm' in names else 'c'
+        if catname in names:
+            opts += ['CategoricalROISubsetState', 'CategorySubsetState', 'CategorySubsetState', 'CategoricalMultiRangeSubsetState', 'CategoricalROISubsetState:range']
+            if 'c2' in names:
+                opts += ['CategoricalROISubsetState2D']
         if not is_table:
             opts += ['MaskSubsetState', 'SliceSubsetState', 'PixelSubsetState', 'RoiSubsetState']
         if 'q' in names:
@@ -1370,11 +1579,16 @@ def random_spec(rng, tables):
             n = int(np.prod(ds['shape']))
             return {'cls': c, 'd': d, 'indices': sorted(rng.sample(range(n), min(3, n)))} if is_table else {'cls': 'RangeSubsetState', 'd': d, 'att': 'x', 'lo': 1, 'hi': 4}
         if c == 'CategoricalROISubsetState':
-            return {'cls': c, 'd': d, 'att': 'c', 'categories': rng.sample(['a', 'b', 'c', 'dd'], 2)}
+            return {'cls': c, 'd': d, 'att': catname, 'categories': rng.sample(['a', 'b', 'c', 'dd'], 2)}
+        if c == 'CategoricalROISubsetState:range':
+            lo = rng.choice([0, 0.5, 1])
+            return {'cls': 'CategoricalROISubsetState', 'd': d, 'att': catname, 'from_range': [lo, lo + rng.choice([1, 1.5, 2])]}
         if c == 'CategorySubsetState':
-            return {'cls': c, 'd': d, 'att': 'c', 'codes': rng.sample([0, 1, 2, 3], 2)}
+            return {'cls': c, 'd': d, 'att': catname, 'codes': rng.sample([0, 1, 2, 3, 4], rng.randrange(1, 3))}
         if c == 'CategoricalMultiRangeSubsetState':
-            return {'cls': c, 'd': d, 'cat': 'c', 'num': 'x', 'ranges': {'a': [[0, 4]], 'b': [[3, 8]]}}
+            return {'cls': c, 'd': d, 'cat': catname, 'num': 'x', 'ranges': {'a': [[0, 4]], 'b': [[3, 8]]}}
+        if c == 'CategoricalROISubsetState2D':
+            return {'cls': c, 'd': d, 'att1': catname, 'att2': 'c2', 'categories': {'a': ['a', 'b'], 'b': ['dd'], rng.choice(['c', 'dd']): ['a', 'c', 'dd']}}
         if c == 'MaskSubsetState':
             return {'cls': c, 'd': d, 'seed': rng.randrange(100)}
         return {'cls': c, 'd': d, 'slices': [[0, rng.choice([1, 2]), None]]}
@@ -1436,6 +1650,16 @@ def shrink(spec, still_fails, budget=60):
                 if c['kind'] in ('arith', 'func', 'parsed', 'datetime', 'dask') or c['name'] not in ('x', 'y', 'z', 'c'):
                     s = copy.deepcopy(cur)
                     del s['datasets'][di]['comps'][ci]
+                    cands.append(s)
+            for ci, c in enumerate(ds['comps']):
+                for key in ('cats', 'jitter', 'units'):
+                    if c.get(key) is not None:
+                        s = copy.deepcopy(cur)
+                        s['datasets'][di]['comps'][ci].pop(key)
+                        cands.append(s)
+                for key in sorted(c.get('cats') or {}):
+                    s = copy.deepcopy(cur)
+                    s['datasets'][di]['comps'][ci]['cats'].pop(key)
                     cands.append(s)
             for key in ('style', 'meta', 'coords', 'meta_unserialisable'):
                 if ds.get(key):
@@ -1770,12 +1994,99 @@ def stream_tables(R, T):
     return flags
 
 
+def stream_codecs(R):
+    """the field-level codec table of the model against the records the real savers wrote in this run: every key of a record
+    written by a registered saver function is a key of that saver in the table, and every key the table has on all paths of the
+    saver is in every such record"""
+    import gen_codecs
+    from glue.core.state import GlueSerializer
+    C = gen_codecs.collect()
+    names = C['names']
+    by_row = {(r['cls'], r['version']): r for r in C['savers']}
+    seen = {}
+    for typ, proto, keys in sorted(SEEN_RECORDS):
+        try:
+            cls = lookup(typ)
+        except Exception:
+            continue
+        if not isinstance(cls, type) or hasattr(cls, '__gluestate__'):
+            continue
+        row = None
+        for k in cls.mro():
+            if k in GlueSerializer.dispatch:
+                row = ('%s.%s' % (k.__module__, k.__qualname__), proto)
+                break
+        if row is None or row not in by_row:
+            R.fail('correspondence', {'stream': 'codecs', 'type': typ, 'protocol': proto}, {'why': 'a record was written for a type that has no row in the codec table'})
+            continue
+        seen.setdefault(row, set()).add(keys)
+    lines, idx = [], []
+    for row in sorted(seen):
+        for nm, i in sorted(names.items(), key=lambda kv: kv[1]):
+            lines.append(enc((5, [names[row[0]], row[1], i])))
+            idx.append((row, nm))
+    outs = R.model(lines)
+    flags = {}
+    for (row, nm), o in zip(idx, outs):
+        flags.setdefault(row, {})[nm] = to_zs(o)
+    nbad = 0
+    for row in sorted(seen):
+        dynamic = any(p['dynamic'] for p in by_row[row]['paths'])
+        f = flags[row]
+        always = set(nm for nm, z in f.items() if len(z) == 3 and z[0])
+        sometimes = set(nm for nm, z in f.items() if len(z) == 3 and z[1])
+        table_py = set(k for p in by_row[row]['paths'] for k in p['keys'])
+        for keys in sorted(seen[row]):
+            ks = set(keys) - {'_type', '_protocol'}
+            R.count(('codecs', row, keys), nontrivial=bool(ks), stream='codecs')
+            bad = None
+            if sometimes != table_py:
+                bad = 'the extracted model and the generator disagree on the keys of the row'
+            elif not dynamic and not ks <= sometimes:
+                bad = 'the saver wrote keys that the table does not have: %s' % sorted(ks - sometimes)
+            elif not always <= ks:
+                bad = 'the table says these keys are written on every path, the record lacks them: %s' % sorted(always - ks)
+            if bad and nbad < 10:
+                nbad += 1
+                R.fail('correspondence', {'stream': 'codecs', 'saver': list(row), 'record_keys': sorted(ks)}, {'why': bad, 'model_always': sorted(always), 'model_sometimes': sorted(sometimes)})
+    R.stream('codecs', cases=sum(len(v) for v in seen.values()), exhaustive=False, rows_seen=len(seen), rows_total=len(by_row),
+             bound='every distinct (type, protocol, key set) record written by a registered saver function in the sessions of this run')
+
+
 # ====================================================================================== entry points
 def classify(spec, result):
     """known-finding key for exactly the recorded input class, else None"""
     if result['status'] == 'load-failed' and "FunctionalLinkCollection' not found" in str(result['detail']) and \
             any(ln['kind'] == 'FunctionalLinkCollection' for ln in spec.get('links', [])):
         return 'load-failed:functional_link_collection'
+    if result['status'] == 'changed' and isinstance(result['detail'], list) and result['detail']:
+        # an N-d categorical component with default categories is restored with an explicit category list, for which the codes
+        # cannot be computed (pandas merge on an N-d array): codes and code-based masks raise ValueError after the load
+        nd = set()
+        for i, ds in enumerate(spec.get('datasets', [])):
+            if len(ds['shape']) > 1 and any(c['kind'] == 'cat' and c.get('cats') is None and not (ds.get('file') and not c.get('mem')) for c in ds['comps']):
+                nd.add(i)
+        import re as _re
+        ok = bool(nd)
+        for path, before, after in result['detail']:
+            m = _re.match(r'^/data/(\d+)/(categorical/\d+/codes|subsets/\d+/mask)$', path)
+            if not (m and int(m.group(1)) in nd and after == 'EXC:ValueError' and isinstance(before, list)):
+                ok = False
+        if ok:
+            return 'changed:nd-categorical-default-categories'
+        # units set on a derived component are neither saved nor restored
+        du = {}
+        for i, ds in enumerate(spec.get('datasets', [])):
+            for c in ds['comps']:
+                if c['kind'] in ('arith', 'func', 'parsed') and c.get('units'):
+                    du[i] = c['units']
+        ok = bool(du)
+        for path, before, after in result['detail']:
+            m = _re.match(r'^/data/(\d+)/units/\d+$', path)
+            if not (m and int(m.group(1)) in du and before == du[int(m.group(1))] and after == ''):
+                ok = False
+        if ok:
+            return 'changed:derived-component-units'
     return None
 
 
@@ -1794,7 +2105,7 @@ def check_session(R, name, spec, via_app, stream, nfail):
     if st in BAD:
         k = classify(spec, r)
         if nfail[0] < 12 or k:
-            nfail[0] += 1
+            nfail[0] += 0 if k else 1       # a recorded finding does not use up the budget of failing inputs
             hang = 'no result after' in str(r['detail'])
             small = shrink(spec, lambda s: trip(s, R.scratch, via_app=via_app)['status'] == st) if not (k or hang) else spec
             rr = trip(small, R.scratch, via_app=via_app) if small is not spec else r
@@ -1845,12 +2156,24 @@ def run(R):
         R.note('classes with instance state never written as a _type by a session that saved: ' + ', '.join(missing))
     R.stream('catalogue', cases=len(cat), exhaustive=True,
              bound='every SubsetState class (every Roi class inside RoiSubsetState; pretransforms), every link helper class, derived / datetime / NaN / dask components '
-                   'alone and seen through links, coordinates none/identity/affine/legacy x 1-3 dimensions, csv/npy/fits with and without data, RegionData, equal labels')
+                   'alone and seen through links, coordinates none/identity/affine/legacy x 1-3 dimensions, csv/npy/fits with and without data, RegionData, equal labels; '
+                   '16 CategoricalComponent constructor option sets (explicit category order, unused / missing / no categories, list / tuple / array, jitter, units) x include_data on / off '
+                   'with 12 code-based and label-based selections each, N-d categorical components, units on every stored and derived component kind')
     n = R.pick(110, 1500)
     for i in range(n):
         rng = R.subrng('session', i)
         sp = random_spec(rng, T)
         check_session(R, 'random:%d' % i, sp, i % 2 == 1, 'random', nfail)
+    if statuses.get('regiondata:no-extended') and statuses['regiondata:no-extended'] not in (['save-failed'], ['skipped']):
+        R.fail('correspondence', {'stream': 'catalogue', 'name': 'regiondata:no-extended'},
+               {'why': 'a RegionData without extended component no longer fails loudly at save time: the reason given for legit_unwritten_reads in coq/C02/CodecModel.v is stale',
+                'status': statuses['regiondata:no-extended']})
+    if R.model_available:
+        try:
+            stream_codecs(R)
+        except Exception:
+            import traceback
+            R.fail('correspondence', {'stream': 'codecs'}, {'why': 'stream crashed', 'trace': traceback.format_exc()[-1500:]})
     R.sample({'stream': 'catalogue', 'name': cat[0][0], 'spec': cat[0][1]})
     R.stream('random', cases=n, exhaustive=False, bound='1-3 datasets (1-d tables, 2-d / 3-d images; files when include_data is off), 1-4 subset groups with composites to depth 2, links forming a forest')
 
